@@ -81,6 +81,11 @@ static std::string handle(const Sx& cs) {
     if (const RecordArray* r = dynamic_cast<const RecordArray*>(c.get())) return D(r->setitem_field(cs[2].a, L(4)));
     throw std::invalid_argument("setfield: not a RecordArray");
   }
+  if (op == "setfieldat") {  // (id setfieldat WHERE recordlayout what): the position variant
+    ContentPtr c = L(3);
+    if (const RecordArray* r = dynamic_cast<const RecordArray*>(c.get())) return D(r->setitem_field(to_i64(cs[2]), L(4)));
+    throw std::invalid_argument("setfieldat: not a RecordArray");
+  }
   if (op == "reduce") {  // (id reduce NAME AXIS MASK KEEPDIMS layout)
     return D(L(6)->reduce(*reducer_of(cs[2].a), to_i64(cs[3]), to_i64(cs[4]) != 0, to_i64(cs[5]) != 0));
   }
